@@ -356,3 +356,14 @@ def load(reg):      # noqa: F811
                          "forall('k:ref:EventType', implies(k != %s, has(%s._listeners, k) == old(has(%s._listeners, k))"
                          " and implies(old(has(%s._listeners, k)), get(%s._listeners, k) == old(get(%s._listeners, k)))))" % (ET, PR, PR, PR, PR, PR)],
                      modifies=["self._event_types", "%s._listeners" % PR], props=C11, axiom_sets=("seqref",))
+
+    # ---- BOUNDED stand-in (never counted as proved): the four simulation statistics driven through the real publish /
+    # subscribe path against the plain statistic of their family fed the observations since the last warm-up
+    def schedule_sweep(table):
+        from pyvc.ground import run_native
+        res = run_native({"function": "SimPersistent.notify", "obligation": "bounded-sweep", "property": "C11"})
+        return [("BOUNDED: 160 generated observation / clock / warm-up / end-of-replication schedules (40 per family; 5x in the thorough tier) over {SimCounter, "
+                 "SimTally, SimWeightedTally, SimPersistent} (data through a real producer, warm-up and replication end through the "
+                 "simulator's own notifications): every query equals the plain statistic fed the observations since the last warm-up",
+                 not res.get("reproduced"), res.get("observed") or res.get("note"))]
+    reg.ground_obligation("BOUNDED stand-in: native schedule sweep of the simulation statistics", C11, schedule_sweep)
